@@ -223,6 +223,32 @@ theorem self_order_independent (c : ℕ) (hc : 0 < c) (dk : ℝ) (hdk : dk ≠ 0
   intro j _
   rfl
 
+/-- the same two selections handed over in the other order -/
+def swapSel (F : DebFrame ℝ) : DebFrame ℝ :=
+  { F with n1 := F.n2, n2 := F.n1, M1 := F.M2, M2 := F.M1, R1 := F.R2, R2 := F.R1 }
+
+theorem miDist_symm (p q L : ℕ → ℝ) : miDist p q L = miDist q p L := by
+  unfold miDist
+  rw [miComp_symm (p 0), miComp_symm (p 1), miComp_symm (p 2)]
+
+/-- `omega_ab = omega_ba`: which selection is passed first does not matter for a cross correlation -/
+theorem cross_swap_symmetric (c : ℕ) (hc : 0 < c) (dk : ℝ) (F : DebFrame ℝ) (q : ℕ) :
+    frameOmega false c dk (swapSel F) q = frameOmega false c dk F q := by
+  rw [frameOmega_eq false c hc, frameOmega_eq false c hc]
+  simp only [Bool.false_eq_true, if_false]
+  have hv : visited false (swapSel F) (dk * (q + 1 : ℕ)) = visited false F (dk * (q + 1 : ℕ)) := by
+    unfold visited
+    simp only [jStart, Bool.false_eq_true, if_false, ← Finset.range_eq_Ico]
+    show ∑ i ∈ range F.n2, ∑ j ∈ range F.n1, pairTerm (swapSel F) _ i j = _
+    rw [Finset.sum_comm]
+    apply Finset.sum_congr rfl; intro i _
+    apply Finset.sum_congr rfl; intro j _
+    unfold pairTerm swapSel
+    simp only [eq_comm (a := F.M2 j), miDist_symm (F.R2 j)]
+  rw [hv]
+  show _ / (_ * ((F.n2 + F.n1 : ℕ) : ℝ)) = _
+  rw [Nat.add_comm F.n2 F.n1]
+
 /-! ### schedules: every interleaving of the per-chunk update streams (any scalar type, also `Float`) -/
 
 section
